@@ -39,6 +39,7 @@
                bound to an exception object (`excVal exc`, a record).  The translator only accepts a body that is
                ONE statement without effects, so that no assignment / effect of the body is lost by this.
                `.stuck` is never caught.
+             * Round 4: `for x in obj`, comprehensions and `in` over an iterable OBJECT (record) range over its pseudo field `__iter__`.
              * Round 3: `str + str` concatenates; `list(obj)` of an iterable OBJECT (record) is its pseudo field `__iter__`;
                `while c: body` is `.whileF fuel c body` (`whileLoop`): the fuel is evaluated once, at most that many
                iterations run, a condition that still holds afterwards is `.stuck`.
@@ -139,6 +140,11 @@ def Val.truthy : Val → Res Bool
 def Val.asList : Val → Res (List Val)
   | .list xs => .ok xs
   | .dict kvs => .ok (kvs.map (·.1))
+  | .record fs =>
+    -- an iterable OBJECT: the pseudo field `__iter__` (what its class's `__iter__` yields, supplied as data)
+    match fs.lookup "__iter__" with
+    | some (.list xs) => .ok xs
+    | _ => .stuck
   | _ => .stuck
 
 /-! ### syntax -/
@@ -563,6 +569,10 @@ def exec (X : Ext) : Stmt → St → Flow
     withVal (eval X it st.env) fun v =>
       match v with
       | .list vs => forLoop (fun w s => execBlock X body (s.set x w)) vs st
+      | .record fs =>
+        match fs.lookup "__iter__" with
+        | some (.list vs) => forLoop (fun w s => execBlock X body (s.set x w)) vs st
+        | _ => .stuck
       | _ => .stuck
   | .ret e, st => withVal (eval X e st.env) fun v => .ret v st
   | .yield e, st => withVal (eval X e st.env) fun v => .next { st with out := st.out ++ [v] }
